@@ -1002,6 +1002,10 @@ def mon_C09(case):
                     out.append((i, f"C09 typing note relayed to {sid}, a session of the typist"))
                 if k.get("from") != act[0] or f.split(" ")[1] != t:
                     out.append((i, f"C09 relayed note names sender {k.get('from')} topic {f.split(' ')[1]} instead of {act[0]} {t}"))
+            # … nor on `me`, where the note is relayed to the readers who are not attached to the topic
+            for sid, f in ln.meframes:
+                if f.startswith("info me ") and frame_kv(f).get("what") == "kp" and frame_kv(f).get("from") == case.sess.get(sid, {}).get("user"):
+                    out.append((i, f"C09 typing note relayed on `me` to {sid}, a session of the typist"))
             # a mark moves only on a note from a reader or a publish by the user
         if w[0] not in ("note", "pub", "sub", "newgrp", "restart", "leave", "delsub", "deltopic", "setsub") and pre is not None:
             for t, row in ln.store.items():
